@@ -1,6 +1,7 @@
 package account
 
 import (
+	"encoding/json"
 	"bytes"
 	"encoding/hex"
 	"fmt"
@@ -221,6 +222,12 @@ func (e *c38env) events(si interface{}) []string {
 		}
 	}
 	ev = append(ev, "reload")
+	if e.light && len(st.accs) > 0 {
+		if _, err := os.Stat(st.path + "~"); err != nil {
+			// an earlier process died between writing the temporary file and renaming it over the wallet
+			ev = append(ev, "crashleft")
+		}
+	}
 	return ev
 }
 
@@ -341,6 +348,22 @@ func (e *c38env) apply(si interface{}, ev string) (string, string) {
 				st.last = "sch:same"
 			}
 			st.accs[i].sch = c38schemes[sc].Name()
+		case "crashleft":
+			// what Save had written to "<wallet>~" for a longer wallet state (same accounts, a long wallet name)
+			// when the process died before the rename; the wallet file itself is intact
+			w := &WalletData{}
+			if err := w.Load(st.path); err != nil {
+				panic("c38: load for crashleft: " + err.Error())
+			}
+			w.Name = strings.Repeat("n", 900)
+			data, err := json.Marshal(w)
+			if err != nil {
+				panic(err)
+			}
+			if err := os.WriteFile(st.path+"~", data, 0644); err != nil {
+				panic(err)
+			}
+			st.last = "crashleft"
 		case "reload":
 			cli, err := NewClientImpl(st.path)
 			if err != nil {
@@ -383,6 +406,9 @@ func (e *c38env) key(si interface{}) string {
 		fmt.Fprintf(&sb, "%s|%q|%v|%s|%d|%v;", a.kind, a.label, a.def, a.sch, a.pw, a.broken)
 	}
 	fmt.Fprintf(&sb, " idx[%s] addrs=%d list=%d", st.labelIndex(), len(st.cli.accAddrs), len(st.cli.walletData.Accounts))
+	if _, err := os.Stat(st.path + "~"); err == nil {
+		sb.WriteString(" leftover-temp-file")
+	}
 	return sb.String()
 }
 
@@ -549,7 +575,7 @@ func c38run(t *testing.T, unit string, light bool) {
 	} else {
 		depth = r.Pick(2, 3)
 	}
-	r.Rule("breadth-first search over wallet operation histories (NewAccount, ImportAccount of 3 fixed keys, DeleteAccount with right/other password, SetDefaultAccount, SetLabel, ChangePassword with right/other old password, ChangeSigScheme incl. a mismatching scheme, reload) on a real wallet file, <=3 accounts; state = per position (origin, label, default, scheme, which password) + live label index; in every state the file is reopened and the reloaded and the live client are compared with the reference list, every account is opened with its current password (same key) and with other passwords (must fail); classes = operation outcomes")
+	r.Rule("breadth-first search over wallet operation histories (NewAccount, ImportAccount of 3 fixed keys, DeleteAccount with right/other password, SetDefaultAccount, SetLabel, ChangePassword with right/other old password, ChangeSigScheme incl. a mismatching scheme, reload; light unit also: a left-over temporary file of a process that died between writing it and the rename) on a real wallet file, <=3 accounts; state = per position (origin, label, default, scheme, which password) + live label index; in every state the file is reopened and the reloaded and the live client are compared with the reference list, every account is opened with its current password (same key) and with other passwords (must fail); classes = operation outcomes")
 	r.Bound(fmt.Sprintf("unit %s: scrypt %+v, labels %q, 2 passwords (one a prefix of the other), depth<=%d", unit, *e.param, e.labels, depth))
 	r.Assume("ImportAccount is only called for addresses not yet in the wallet, as cmd/account_cmd.go does; the label an import ends up with after a clash is taken from the client")
 	if light {
